@@ -146,6 +146,23 @@ def check_world(prop, tier, seed, replay=None):
         print('VIOLATION property=%s replay=%s no-failing-input-found' % (prop, path))
         return 1
 
+    if replay and 'protocol ring-1' in open(replay).read():
+        lines = [l.rstrip('\n') for l in open(replay) if l.strip() and not l.startswith('#')]
+        hx = vlib.build_simple_harness('ring', std='c++17')
+        impl = vlib.run_scripts(hx, [lines], 1, mode='ring')[0]
+        model = vlib.run_scripts(tmodel, [lines], 1, mode='ring')[0]
+        bad = bool(impl[1]) or impl[0] != model[0]
+        for i, l in enumerate(lines):
+            a = impl[0][i] if impl[0] and i < len(impl[0]) else '<none>'
+            b = model[0][i] if model[0] and i < len(model[0]) else '<none>'
+            print('%-24s\n    impl : %s\n    model: %s%s' % (l, a, b, '  <<< differs' if a != b else ''))
+        if impl[1]:
+            print('impl crashed:', impl[1])
+        if bad:
+            print('VIOLATION property=%s replay=%s' % (prop, replay))
+            return 1
+        print('no disagreement')
+        return 0
     if replay:
         lines = [l.rstrip('\n') for l in open(replay) if l.strip() and not l.startswith('#')]
         impl = vlib.run_scripts(hw, [lines], 1)[0]
@@ -311,6 +328,11 @@ def check_world(prop, tier, seed, replay=None):
                                      ['verdict violation', 'a documented spelling of the expectation statements no longer compiles (harness/spelling/h_spelling.cpp)'],
                                      str(e).split('\n')[-30:])
             violations.append((path, False))
+    # 6c. C14: the intrusive ring itself — the real list_elem / list<T,Disposer> against the heap model (Model/Ring.lean)
+    ring = None
+    if prop == 'C14':
+        ring, ring_viol = ring_correspondence(prop, tier, seed, tmodel, rng)
+        violations.extend(ring_viol)
     # 7. evidence
     wall = time.time() - t0
     # a broken tie for which a concrete failing input was found is reported with that input only
@@ -336,7 +358,7 @@ def check_world(prop, tier, seed, replay=None):
              % (cfg['enums'], cfg['profiles']),
         samples=['\n'.join(scripts[i][2]) for i in ([0, len(scripts) // 2, len(scripts) - 1] if scripts else [])],
         exhaustive=False,
-        generator_mix=dict(gen_stats), outcome_histogram=dict(hist), notes=notes, spelling_family=spelling,
+        generator_mix=dict(gen_stats), outcome_histogram=dict(hist), notes=notes, spelling_family=spelling, ring_correspondence=ring,
         harness_tree=vlib.repo_hash(),
     )
     vlib.write_evidence(prop, tier, seed, 'proof', cov,
@@ -347,6 +369,83 @@ def check_world(prop, tier, seed, replay=None):
         print('VIOLATION property=%s replay=%s%s' % (prop, path, ' no-failing-input-found' if nf else ''))
     log('[%s] %s: %d scripts, %d ops, %d failing, %.0fs' % (prop, tier, len(scripts), nops, len(failing), wall))
     return 1 if violations else 0
+
+
+def ring_correspondence(prop, tier, seed, tmodel, rng):
+    """harness/ring/h_ring.cpp (real ring, ASan+UBSan+TROMPELOEIL_SANITY_CHECKS) vs `tmodel ring` on legal ring scripts."""
+    import ringgen
+    viol = []
+    try:
+        hx = vlib.build_simple_harness('ring', std='c++17')
+    except vlib.BuildError as e:
+        path = vlib.write_replay(prop, tier, seed, 'ring-build',
+                                 ['verdict tie-broken', 'broken correspondence h_ring (does not compile against /repo)'], str(e).split('\n')[-30:])
+        return dict(error='harness does not compile'), [(path, True)]
+    scripts = []
+    for p in sorted(glob.glob(os.path.join(vlib.VERIF, 'corpus', 'ring', '*.script'))):
+        scripts.append((os.path.relpath(p, vlib.VERIF), [l.rstrip('\n') for l in open(p) if l.strip() and not l.startswith('#')]))
+    scripts += ringgen.scripts(tier, rng)
+    lines = [s for _, s in scripts]
+    mo = vlib.run_scripts(tmodel, lines, mode='ring')
+    io = vlib.run_scripts_robust(hx, lines, mode='ring')
+    mix = collections.Counter(src.split(':')[-1] if src.startswith('ring:') else 'corpus' for src, _ in scripts)
+    opmix = collections.Counter(l.split()[0] for s in lines for l in s)
+    failing = []
+    skipped = 0
+    for idx, ((src, s), (m, mc), (i, ic)) in enumerate(zip(scripts, mo, io)):
+        if m is None or mc:
+            failing.append((idx, 'model driver failed: %s' % mc))
+        elif 'illegal' in m or 'bad-op' in m:
+            skipped += 1
+        elif ic:
+            failing.append((idx, 'implementation crashed: ' + ic))
+        elif m != i:
+            failing.append((idx, None))
+
+    def fails(ls):
+        m = vlib.run_scripts(tmodel, [ls], 1, mode='ring')[0]
+        if m[0] is None or 'illegal' in m[0] or 'bad-op' in m[0]:
+            return False
+        i = vlib.run_scripts(hx, [ls], 1, mode='ring')[0]
+        return bool(i[1]) or i[0] != m[0]
+    for idx, why in failing[:3]:
+        src, s = scripts[idx]
+        cur = list(s)
+        changed = True
+        budget = 200
+        while changed and budget > 0:
+            changed = False
+            for k in range(len(cur) - 1, -1, -1):
+                cand = cur[:k] + cur[k + 1:]
+                budget -= 1
+                if cand and fails(cand):
+                    cur = cand
+                    changed = True
+                if budget <= 0:
+                    break
+        m = vlib.run_scripts(tmodel, [cur], 1, mode='ring')[0]
+        i = vlib.run_scripts(hx, [cur], 1, mode='ring')[0]
+        header = ['verdict violation', 'source %s' % src, 'protocol ring-1 (harness/ring/h_ring.cpp)',
+                  'oracle: the heap model of Model/Ring.lean, which represents the abstract lists after every legal script '
+                  '(Props/C14_Ring.lean: ring_refines_lists, iteration_is_list)']
+        if i[1]:
+            header.append('implementation crashed: ' + vlib.crash_summary(i[1]))
+        else:
+            for k, l in enumerate(cur):
+                a = i[0][k] if i[0] and k < len(i[0]) else '<none>'
+                b = m[0][k] if m[0] and k < len(m[0]) else '<none>'
+                if a != b:
+                    header += ['first differing operation #%d: %s' % (k, l), 'impl : ' + a, 'model: ' + b]
+                    break
+        path = vlib.write_replay(prop, tier, seed, 'ring%d' % idx, header, cur)
+        viol.append((path, False))
+    stats = dict(scripts=len(scripts), operations=sum(len(s) for s in lines), failing=len(failing), skipped_illegal=skipped,
+                 generator_mix=dict(mix), operation_mix=dict(opmix),
+                 rule='every push pattern for n<=4 elements x every single follow-up operation (systematic) + seeded random legal '
+                      'scripts over <= 4 lists and <= 10 nodes; compared: forward and backward traversal of every live list, '
+                      'empty(), is_linked() of every node, after every operation')
+    log('[%s] ring: %d scripts, %d ops, %d failing' % (prop, stats['scripts'], stats['operations'], len(failing)))
+    return stats, viol
 
 
 PURE = {}
